@@ -170,6 +170,22 @@ def run(ctx):
           'instant view: the same rule applied at the exact term instant (critical instants around all 12 Jie of a year, 3 new-year positions)',
           lambda a: '%s %s %02d:%02d:%02d' % (scen_t[a[0]][0], '%d-%02d-%02d' % CAL.from_jdn(a[1]), a[2] // 3600, a[2] // 60 % 60, a[2] % 60), fn_site(p, 'SixtyCycleHour::from_solar_time'))
 
+    # 4a. the eight characters of an instant carry the instant-level year and month pillars, through every shipped provider
+    def ec_time(args):
+        si, n, s_ = args
+        name, tm, months = scen_t[si]
+        cm = CalModel(I, tm, months)
+        out = []
+        for prov in ('DefaultEightCharProvider', 'LunarSect2EightCharProvider'):
+            pv = I.call(prov + '::new', [])
+            ec = I.method(pv, 'get_eight_char', t.m(cm.solar_time_n(n, s_), 'get_lunar_hour'))
+            out.append((t.name(t.m(ec, 'get_year')), t.name(t.m(ec, 'get_month'))))
+        return tuple(out)
+    ec_dom = [(si, n, s_) for si in (0, 2) for (n, s_) in times_by_scen[si] if n in jie_days_of_year(scen_t[si][1], Y)][:120]
+    table(ctx, 'PETE-SCENARIO', 'EightCharProvider:year/month-at-instant', ec_dom, ec_time, lambda a: (orc_time(a), orc_time(a)),
+          'the year and month characters of an instant are those of the instant-level view (before / after the Jie instant inside a Jie day), for the default and the sect-2 provider',
+          lambda a: '%s %s %02d:%02d:%02d' % (scen_t[a[0]][0], '%d-%02d-%02d' % CAL.from_jdn(a[1]), a[2] // 3600, a[2] // 60 % 60, a[2] % 60), fn_site(p, 'LunarSect2EightCharProvider::get_eight_char'))
+
     # 4b. stepping an instant-level value: x.next(n) must be the value of the instant n seconds later (also across a Jie instant inside one civil day)
     def hstep(args):
         n, s0, dn = args
@@ -248,6 +264,11 @@ def run(ctx):
     table(ctx, 'PETE-SCENARIO', 'lunar-twins==sexagenary-views', [(n, sec) for n in tw_days for sec in (0, 43200, 84600)], twins, lambda x: (),
           'LunarDay / LunarHour pillar getters answer exactly what the sexagenary-day / -hour views answer (Jie days, ordinary days, 23:30)', lambda x: '%d-%02d-%02d' % CAL.from_jdn(x[0]) + ' +%ds' % x[1],
           fn_site(p, 'LunarHour::get_year_sixty_cycle'))
+
+    # ---- the two ends of the supported range (first days of 0001, last days of 9999, last lunar year)
+    from rules import range_end as _re
+    _Ie = ctx.interp(fuel=50000000)
+    _re.c08_edge(ctx, _Ie, T(_Ie))
 
     ctx.assumptions.append('numeric layer replaced by oracles: civil date <-> day number (C01), term days/instants (C05/C06), lunar month table (C02/C03)')
     ctx.not_decided.append('on which civil day / instant each Jie and Lichun actually falls (numeric)')
